@@ -619,7 +619,11 @@ pub struct Bounds {
 
 pub fn bounds(tier: Tier) -> Vec<Bounds> {
     match tier {
-        Tier::Quick => vec![Bounds { text: "a  b", maxset: 2, set_nonempty_only: false, annotations: true }],
+        Tier::Quick => vec![
+            Bounds { text: "a  b", maxset: 2, set_nonempty_only: false, annotations: true },
+            // multi-byte characters before and inside whitespace gaps (codepoint positions differ from byte positions)
+            Bounds { text: "\u{e9} \u{3000}b", maxset: 2, set_nonempty_only: true, annotations: false },
+        ],
         Tier::Thorough => vec![
             Bounds { text: "a  b", maxset: 3, set_nonempty_only: true, annotations: true },
             Bounds { text: "a b  c", maxset: 2, set_nonempty_only: false, annotations: false },
